@@ -83,7 +83,7 @@ def run(repo, rep, tier):
     func = repo.func(VE)
     res = L.emission(repo, VE)
     rep.count("functions_interpreted")
-    steps, rest = L.wrapper_chain(element_value(res))
+    steps, rest = element_chain(res)
     _order(rep, func, steps, rest)
     _chain(rep, func, steps, rest)
     _keyed(repo, rep, func)
@@ -129,7 +129,10 @@ EXPECT_KIND = {
 
 # (outer, inner, reason)
 PINNED = [
-    ("on-error", "*", "on-error guards everything the element does"),
+    ("on-error", "*", "on-error guards everything the element does (only "
+                      "the i18n:name capture, which merely redirects where "
+                      "the element's output -- fallback included -- is "
+                      "written, may enclose it)"),
     ("define-slot", "<define>", "a filled slot replaces the whole element "
                                 "including its definitions"),
     ("<define>", "case", "definitions first: visible to the guards"),
@@ -167,11 +170,35 @@ def element_value(res):
     return top
 
 
+def element_chain(res, limit=60):
+    """wrapper_chain of what visit_element returns for an element that is
+    not itself a macro definition: wherever the value branches on
+    metal:define-macro, the branch without it is followed (the macro body
+    -- registered with the element's on-error wrapper -- is the same chain
+    from the slot level inwards)."""
+    dm = "has ns[(METAL, 'define-macro')]"
+    v = res.value
+    steps = []
+    for _ in range(limit):
+        if L.decides_on(v, dm) and not (
+                isinstance(L.branch(v, dm, True), A.NodeV) and
+                L.branch(v, dm, True).kind == "UseInternalMacro" and
+                steps and steps[-1].get("kinds") == ["OnError"]):
+            v = L.branch(v, dm, False)
+            continue
+        r = L.peel(v)
+        if r is None:
+            break
+        steps.append(r[0])
+        v = r[1]
+    return steps, v
+
+
 def order(repo, rep):
     """wrapper nesting (R01.1), callable by neighbours"""
     func = repo.func(VE)
     res = L.emission(repo, VE)
-    steps, rest = L.wrapper_chain(element_value(res))
+    steps, rest = element_chain(res)
     _order(rep, func, steps, rest)
 
 
@@ -214,7 +241,7 @@ def _order(rep, func, steps, rest):
         if outer not in pos:
             continue
         if inner == "*":
-            ok = pos[outer] == 0
+            ok = pos[outer] == 0 or (pos[outer] == 1 and pos.get("name") == 0)
         elif inner not in pos:
             continue
         else:
